@@ -3,7 +3,7 @@
 # Confirms a sub-agent's mutant in its scratch worktree (build, full ctest, demo with/without), runs our checks against it, stores it under /verif/seeded/.
 set -u
 WT=/tmp/wt-$1; NAME=$2; shift 2
-CHECKS=${@:-${NAME%%-*}}
+CHECKS=${@:-${NAME:0:3}}
 DEST=/verif/seeded/$NAME
 [ -f $WT/mutant/patch.diff ] || { echo "no patch in $WT"; exit 2; }
 mkdir -p $DEST
@@ -36,7 +36,7 @@ python3 - "$NAME" "$BUILD" "$CT" "$DEMO_ORIG" "$DEMO_MUT" "$RES" <<'PY'
 import json, sys, os
 name, build, ct, do, dm, res = sys.argv[1:7]
 dest = '/verif/seeded/' + name
-meta = {"name": name, "property": name.split('-')[0], "origin": "independent sub-agent given only the property text and a scratch worktree",
+meta = {"name": name, "property": name[:3], "origin": "independent sub-agent given only the property text and a scratch worktree",
         "confirmed": {"compiles": build == "0", "ctest": ct, "demo_exit_on_original_tree": int(do), "demo_exit_with_patch": int(dm)},
         "checks_run": {r.split(':')[0]: ("caught (exit 1)" if r.split(':')[1] == "1" else "exit " + r.split(':')[1]) for r in res.split()},
         "needs_to_manifest": "see README.md", "what_was_run": "tools/seed_eval.sh: original tree -> demo passes; git apply patch.diff -> build, full ctest, demo fails; VERIF_REPO=<worktree> ./check <id> quick"}
